@@ -48,6 +48,9 @@ partial def parseTree : List String → Option (Option St × List String)
       | [t] => some t
       | _ => some (.mux (Mux.make subs)), rest')
   | "C" :: rest => parseTree rest          -- a clone is the same stream
+  | "MX" :: rest => parseTree ("M" :: rest)   -- the other constructors of a merged stream build the same stream
+  | "MC" :: rest => parseTree ("M" :: rest)
+  | "VC" :: rest => parseTree ("M" :: rest)
   | "F" :: rest => do
     let (e, r1) ← parseTree rest
     let (x, r2) ← parseTree r1
